@@ -3,7 +3,6 @@ package main
 import (
 	"bytes"
 	"flag"
-	"fmt"
 	"image/color"
 	"math"
 
@@ -331,8 +330,17 @@ func driveC08(args []string) error {
 			b := full[:cut]
 			for di, d := range decs {
 				if (pi+di)%2 == 0 || cut < len(full) || len(full) == 1 {
-					v, u, n := d.hook(append(b[:len(b):len(b)], 0xee, 0xee)[:len(b)]) // capacity holds poison, length does not
-					emit(numEv{Ev: "dec", Kind: d.kind, Path: "hook", B: bytesJ(b), V: v, U: u, N: n, OK: b2i(n > 0)})
+					var v F
+					var u, n int
+					o := guarded(func() error {
+						v, u, n = d.hook(append(b[:len(b):len(b)], 0xee, 0xee)[:len(b)]) // capacity holds poison, length does not
+						return nil
+					})
+					okv := b2i(n > 0)
+					if o.panicv != nil || o.hang {
+						okv, n = -1, -9
+					}
+					emit(numEv{Ev: "dec", Kind: d.kind, Path: "hook", B: bytesJ(b), V: v, U: u, N: n, OK: okv})
 					counts["dec.hook"]++
 				}
 				if d.op != 0 && (pi+di)%2 == 1 || cut < len(full) && d.op != 0 {
@@ -340,13 +348,16 @@ func driveC08(args []string) error {
 					src := append(append([]byte{}, magic00...), d.op)
 					src = append(src, b...)
 					var rec Recorder
-					err := decode.Decode(&rec, src)
+					o := guarded(func() error { return decode.Decode(&rec, src) })
+					err := o.err
 					ev := numEv{Ev: "dec", Kind: d.kind, Path: "SetNReg", B: bytesJ(b), N: -1}
-					if err == nil && len(rec.Calls) == 2 {
+					if o.panicv != nil || o.hang {
+						ev.OK = -1 // a panic or hang of the real decoder: no specification outcome matches
+					} else if err == nil && len(rec.Calls) == 2 {
 						ev.OK = 1
 						ev.V = rec.Calls[1].F[0]
 					} else if err == nil {
-						return fmt.Errorf("unexpected call count %d for % x", len(rec.Calls), src)
+						ev.OK = -2
 					}
 					emit(ev)
 					counts["dec.SetNReg"]++
@@ -367,8 +378,11 @@ func driveC08(args []string) error {
 			src := append(append([]byte{}, magic00...), k.op)
 			src = append(src, full...)
 			var rec Recorder
-			if err := decode.Decode(&rec, src); err != nil || len(rec.Calls) != 2 {
-				return fmt.Errorf("reenc: decode % x: %v", src, err)
+			o := guarded(func() error { return decode.Decode(&rec, src) })
+			if o.err != nil || o.panicv != nil || o.hang || len(rec.Calls) != 2 {
+				// a complete number that the real decoder does not accept: reported as a rejected dec event
+				emit(numEv{Ev: "dec", Kind: k.kind, Path: "SetNReg", B: bytesJ(full), N: -1, OK: -1})
+				continue
 			}
 			d := rec.Calls[1].F[0].float()
 			var t []byte
